@@ -16,3 +16,10 @@ import SpoxModel.Props.C02
 #print axioms C02.build_returns_only_checked
 #print axioms C02.adapter_names_counterexample
 #print axioms C02.sibling_names_counterexample
+#print axioms C02.inline_arg_rank
+#print axioms C02.inline_scalar_boundary
+#print axioms C02.inline_rank_or_const_mismatch_refused
+#print axioms C02.intro_identity_accepts
+#print axioms C02.generated_identity_versions_ok
+#print axioms C02.intro_identity_valid
+#print axioms C02.intro_req_14_counterexample
